@@ -202,6 +202,8 @@ class TypeDefs:
         name = segs[-1]
         r = None
         cands = self.by_name.get(name, [])
+        if segs[0] in ('std', 'core', 'alloc'):
+            cands = []          # a std type never resolves to a crate type of the same name
         if len(cands) == 1 and len(segs) == 1:
             r = self.defs[cands[0]]
         else:
